@@ -10,15 +10,16 @@ from ..core import Repo, unparse
 from ..prov import SHELLS
 from ..report import Finding, RuleResult
 from . import c07
-from ._c17_util import normalised
+from ._c17_util import _paired as paired, normalised, written_out
 
 EXPLANATION = (
     "C17.global: no function writes into a module-level mutable object (the effect analysis of C07, with container contents read "
     "flow-sensitively at call sites): a combined domain must not leak into later Domain() instances; in addition the constructor of "
     "Domain / Problem initialises every field that the combiners merge into in place with an object of its own, not with (a part of) a "
     "module-level object (provenance of the constructor's assignments; also covers merges written through getattr). The other rules "
-    "analyse the public functions locate_domains / combine_problems with their private and same-module helpers inlined, generator helpers expanded into the consuming loop, loops over constant field-name tuples unrolled and "
-    "getattr / setattr with constant names turned into attribute accesses; objects are identified by def-use provenance (the fresh "
+    "analyse the public functions locate_domains / combine_problems with their private and same-module helpers inlined, generator helpers expanded into the consuming loop, loops over constant field-name tuples (also zipped / enumerated tables) unrolled, "
+    "getattr / setattr with constant names turned into attribute accesses, positional hand-overs (starred literals, comprehensions over a literal pair, "
+    "attrgetter(*TABLE), NamedTuple._make) written out, one-expression helpers substituted, search loops read as any(..); objects are identified by def-use provenance (the fresh "
     "Domain / Problem that is combined into, the object returned by parse_domain / parse_problem for a globbed file), never by variable "
     "names. C17.fields: every store into a field of the combination (update / extend / add / item assignment / |= / rebinding that keeps "
     "the old content, in any helper) is classified by the agent field it takes its content from; each of the five dictionary fields of "
@@ -130,9 +131,8 @@ class _View:
         g = self.g
 
         def base_of(e):
-            while isinstance(e, (ast.Attribute, ast.Subscript)):
-                e = e.value
-            return e if isinstance(e, ast.Name) else None
+            # the receiver expression: the combination object it belongs to is found through the names it mentions (see origins)
+            return e
 
         def add(site, field, kind, values, keys, base):
             n = g.node_containing(site) if not isinstance(site, ast.stmt) else g.node_of(site)
@@ -167,7 +167,7 @@ class _View:
                         add(n, fld, "aug", [n.value], [], base_of(t.value))
                 elif isinstance(t, ast.Name) and at is not None:
                     for fld in sorted(self.dst_fields(self.trace(ast.Name(id=t.id, ctx=ast.Load()), at))):
-                        add(n, fld, "aug", [n.value], [], t)
+                        add(n, fld, "aug", [n.value], [], ast.Name(id=t.id, ctx=ast.Load()))
         self._stores = out
         return out
 
@@ -207,20 +207,35 @@ class _View:
     def members(self, head: int) -> Set[int]:
         return {n for n in self.g.nodes() if head in self.loop_chain(n)}
 
-    def origins(self, name: ast.Name, at: int, depth: int = 0) -> Set[int]:
-        """CFG nodes of the definitions that create the object a name refers to (plain copies are followed)"""
+    def origins(self, e: Optional[ast.AST], at: int, depth: int = 0, seen: Optional[Set[tuple]] = None) -> Set[int]:
+        """CFG nodes of the constructor calls that create the combination object an expression (the receiver of a merge) may refer to or
+        be a part of: names are followed through their reaching definitions -- plain copies, positional tuple assignments, loop targets,
+        and (conservatively) every name of any other defining expression"""
         out: Set[int] = set()
-        if depth > 8:
+        seen = set() if seen is None else seen
+        if e is None or depth > 10:
             return out
-        for d in self.p.rd.defs_reaching(at, name.id):
-            st = self.g.stmt[d]
-            v = st.value if isinstance(st, (ast.Assign, ast.AnnAssign)) else None
-            while isinstance(v, (ast.Attribute, ast.Subscript)):
-                v = v.value
-            if isinstance(v, ast.Name):
-                out |= self.origins(v, d, depth + 1)
-            elif isinstance(v, ast.Call) and self.is_dst(self.trace(v, d)):
-                out.add(d)
+        for sub in ast.walk(e):
+            if isinstance(sub, ast.Call) and self.is_dst(self.trace(sub, at)):
+                out.add(at)
+            if not (isinstance(sub, ast.Name) and isinstance(sub.ctx, ast.Load)) or (sub.id, at) in seen:
+                continue
+            seen.add((sub.id, at))
+            for d in self.p.rd.defs_reaching(at, sub.id):
+                st = self.g.stmt[d]
+                v: Optional[ast.AST] = None
+                if isinstance(st, ast.Assign):
+                    for t in st.targets:
+                        v = v or paired(t, st.value, sub.id)
+                    v = v or st.value
+                elif isinstance(st, (ast.AnnAssign, ast.AugAssign)):
+                    v = st.value
+                elif isinstance(st, (ast.For, ast.AsyncFor)):
+                    v = st.iter
+                elif isinstance(st, ast.With):
+                    v = ast.Tuple(elts=[i.context_expr for i in st.items], ctx=ast.Load())
+                if v is not None:
+                    out |= self.origins(v, d, depth + 1, seen)
         return out
 
 
@@ -578,11 +593,23 @@ def rule_global(repo: Repo) -> RuleResult:
         def field(self, atoms, f, at=None):
             return super().field(atoms, f, self._site if at is None else at)
 
+    # second local refinement (candidate for promotion into the flattener): the effect analysis reads the flattened functions; positional
+    # hand-overs written as a comprehension over a literal pair (`own, other = (x.f for x in (self, other))`, what `map(attrgetter(f),
+    # (self, other))` in an unrolled table loop becomes) or as a starred literal are written out element by element first, so that
+    # the receiver of the following `own.update(other)` is the combination's own field and not "either of the two"
+    from .. import inline as I
+    flatten0 = I.flatten
+
+    def flatten_written_out(repo_, f_, *a, **k):
+        return written_out(flatten0(repo_, f_, *a, **k))
+
     E._Analyzer = _CallSiteAnalyzer
+    I.flatten = flatten_written_out
     try:
         r = c07.rule_global(repo, "C17.global")
     finally:
         E._Analyzer = base
+        I.flatten = flatten0
     _check_own_fields(repo, r)
     return r
 
